@@ -67,13 +67,24 @@ def generate(family, rng, tier, pipelined=False, w_first=False):
                 break
     if kind in ("p2p", "arbiter"):
         wins = [[0, 32]]
+    # masters of different address widths on one interconnect (a narrow debug bridge next to a 32-bit CPU): the last master is always
+    # 32 bits wide, earlier ones may be narrower; some windows then lie above the range of the narrow masters, which only address
+    # the windows they can reach
+    maw = [32] * nm
+    if kind in ("shared", "crossbar") and nm >= 2 and rng.random() < 0.3:
+        for m in range(nm - 1):
+            maw[m] = rng.choice([16, 20, 32])
+        for i in range(1, ns):
+            if rng.random() < 0.6:
+                wins[i][0] |= rng.choice([1 << 16, 1 << 20, 1 << 30])
     ops, max_out, bre, rre = [], [], [], []
     horizon = 300
     for m in range(nm):
         n = rng.randint(6, 20)
         lst = []
+        reach = [w_ for w_ in wins if w_[1] >= 32 or w_[0] + (1 << w_[1]) <= (1 << maw[m])]
         for j in range(n):
-            o, k = rng.choice(wins)
+            o, k = rng.choice(reach)
             off = (rng.randrange(8) << 2) | (m << 6)
             addr = o + off if k < 32 else (rng.randrange(4) << 12) + off
             if rng.random() < 0.5:
@@ -92,7 +103,7 @@ def generate(family, rng, tier, pipelined=False, w_first=False):
                        "w": prng.pattern(rng, horizon, rng.choice([1.0, 0.7, 0.3])),
                        "ar": prng.pattern(rng, horizon, rng.choice([1.0, 0.7, 0.3])),
                        "lat": [rng.choice([0, 1, 2, 5, 8]) for _ in range(8)], "depth": rng.choice([1, 2, 4])})
-    scn = {"family": "axil", "params": {"kind": kind, "nm": nm, "ns": ns, "wins": wins, "pipelined": pipelined, "w_first": w_first},
+    scn = {"family": "axil", "params": {"kind": kind, "nm": nm, "ns": ns, "wins": wins, "pipelined": pipelined, "w_first": w_first, "maw": maw},
            "ops": ops, "max_out": max_out, "bready": bre, "rready": rre, "slaves": slaves,
            "garbage": [rng.getrandbits(32) for _ in range(11)] if rng.random() < 0.5 else None}
     if rng.random() < 0.15 and ns >= 1:
@@ -114,7 +125,7 @@ def build(p):
     from litex.soc.interconnect.axi import axi_lite
     from litex.soc.integration.soc import SoCRegion
     nm, ns = p["nm"], p["ns"]
-    masters = [axi_lite.AXILiteInterface(data_width=32, address_width=32) for _ in range(nm)]
+    masters = [axi_lite.AXILiteInterface(data_width=32, address_width=(p.get("maw") or [32] * nm)[i]) for i in range(nm)]
     slaves = [axi_lite.AXILiteInterface(data_width=32, address_width=32) for _ in range(ns)]
 
     class FakeBus:
@@ -276,7 +287,7 @@ def run(scn):
     stats = {"cycles": bench.cycle["sys"], "checks": checks,
              "nontrivial": bool(stalls and (maxout > 1 or nm > 1) and ntr >= 10),
              "faults": {"stall_cycles": stalls, "lat_slave": sum(len(sa.log["b"]) + len(sa.log["r"]) for sa in sag)},
-             "probes": {"transactions": ntr, "kind_" + kind: 1, "size_%dx%d" % (nm, ns): 1,
+             "probes": {"transactions": ntr, "kind_" + kind: 1, "size_%dx%d" % (nm, ns): 1, "mixed_master_address_widths": int(len(set(p.get("maw") or [32])) > 1),
                         "w_blocked_probe": int(bool(wb))}}
     return {"violations": viols, "digest": bench.digest(), "stats": stats}
 
